@@ -496,9 +496,9 @@ func ruleRecursion(entryPkg string) func(p *Prog, r *Report) {
 			}
 			sort.Strings(names)
 			n++
-			// the cycle is named by where it is entered from outside and by which of
-			// its members call back into those entries: helpers put between the
-			// two leave the name alone, a different cycle gets a different one
+			// the cycle is named by where it is entered from outside (two cycles
+			// cannot share an entry): helpers put on the cycle leave the name
+			// alone, a different cycle gets a different one
 			inComp := map[*ssa.Function]bool{}
 			for _, f := range comp {
 				inComp[f] = true
@@ -529,10 +529,8 @@ func ruleRecursion(entryPkg string) func(p *Prog, r *Report) {
 			}
 			sort.Strings(entryNames)
 			sort.Strings(backNames)
+			_ = backNames
 			key := rule + ":" + strings.Join(entryNames, "+")
-			if len(comp) > 1 {
-				key += "<-" + strings.Join(backNames, "+")
-			}
 			if len(entryNames) == 0 {
 				key = rule + ":" + strings.Join(names, "+")
 			}
